@@ -247,6 +247,7 @@ pub fn sections() -> Vec<Box<dyn Section>> {
             strategy: Box::new(|_| {
                 let piece = prop_oneof![
                     3 => gtext(0),
+                    1 => crate::chars::gliteral(),
                     2 => select(&["/", ":", "//", "::", "/:", ":/", "@", "a", ""][..]).prop_map(str::to_string),
                     // spellings that ecosystems give a meaning to (module major versions, extras, scopes, classifiers)
                     2 => select(&["v2", "/v2", "/v10", "v1", "/v0", "[extra]", "[a,b]", "requests[security]", "@scope", ".git", "go.mod", ":jar:sources", "@1.0", "#frag", "?q=1", "+incompatible"][..]).prop_map(str::to_string),
